@@ -24,20 +24,20 @@ def scanFiles (look : String → Ent) (mtime : Int) : List String → Ans
 def anyFile (exts : List String) (look : String → Ent) (mtime : Int) (rebuild : Bool) : Ans :=
   if rebuild then .returns else scanFiles look mtime exts
 
-/-- the byte-code loop of PyFileSearcher: the first file with a good magic number and a timestamp (PEP 552: flags word
-0, then the timestamp) decides on the spot -/
-def scanPyc (look : String → Ent) (mtime : Int) : List String → Option Ans
-  | [] => none
+/-- the byte-code loop of PyFileSearcher: a file with a good magic number and a timestamp (PEP 552: flags word 0, then
+the timestamp) that is not older than the MIB answers "up to date"; an older one is passed over like any other file
+(since repair of the loop in /repo; it used to answer "absent" on the spot and hide a fresh source file beside it) -/
+def scanPyc (look : String → Ent) (mtime : Int) : List String → Bool
+  | [] => false
   | sfx :: rest =>
     match look sfx with
-    | .file _ (some pyTime) => some (if pyTime ≥ mtime then .notModified else .notFound)
+    | .file _ (some pyTime) => if pyTime ≥ mtime then true else scanPyc look mtime rest
     | _ => scanPyc look mtime rest
 
 def pyFile (bytecode source : List String) (look : String → Ent) (mtime : Int) (rebuild : Bool) : Ans :=
   if rebuild then .returns
-  else match scanPyc look mtime bytecode with
-    | some a => a
-    | none => scanFiles look mtime source
+  else if scanPyc look mtime bytecode then .notModified
+  else scanFiles look mtime source
 
 def stub (names : List String) (name : String) (_mtime : Int) (_rebuild : Bool) : Ans :=
   if name ∈ names then .notModified else .notFound
